@@ -28,10 +28,23 @@ func (stubChain) QueryBlockHeaderByHeight(height interface{}, cache bool) *types
 func (stubChain) GetAvailableGroupsByMinerId(height uint64, minerId []byte) []*types.Group {
 	return nil
 }
-func (stubChain) GetGroupById(id []byte) *types.Group             { return nil }
+func (stubChain) GetGroupById(id []byte) *types.Group {
+	if g, ok := groups[string(id)]; ok {
+		return g
+	}
+	return nil
+}
 func (stubChain) GetBlockHeader(height uint64) *types.BlockHeader { return nil }
 
 var chain = stubChain{}
+
+// groups known to the stub group chain (id -> group), read by the reward calculator
+var groups = map[string]*types.Group{}
+
+// probeType: transaction type of the probe executor (executor.VerifC20RegisterProbe)
+const probeType = int32(9020)
+
+var probeFn func(tag string, adb *account.AccountDB)
 
 // tokenContract is the address the native balance is bound to (storage slots keccak(addr.3)).
 var tokenContract = common.HexToAddress("0x71d9cfd1b7adb1e8eb4c193ce6ffbe19b4aee0db")
@@ -47,6 +60,11 @@ func boot(height uint64) {
 	vm.InitVM()
 	executor.InitExecutors()
 	core.VerifC06InitLoggers()
+	executor.VerifC20RegisterProbe(probeType, func(tx *types.Transaction, _ *types.BlockHeader, adb *account.AccountDB) {
+		if probeFn != nil {
+			probeFn(tx.Data, adb)
+		}
+	})
 }
 
 // nodeWorld: one trie database in memory, a sequence of AccountDBs over it.
@@ -145,15 +163,31 @@ func newTx(typ int32, src, data string) *types.Transaction {
 }
 
 // runBlock executes one block the way the chain does: the real VMExecutor loop (BeforeExecute / snapshot /
-// Execute / revert, IntermediateRoot), then the refund part of VMExecutor.after() - RefundManager.Add of the
-// block's refund requests and CheckAndMove(height) - without the reward calculator (situation "testing"
-// makes after() a no-op; the two exported calls are issued here in after()'s order).
-func runBlock(w *nodeWorld, h uint64, txs []*types.Transaction) ([]*types.Receipt, map[uint64]types.RefundInfoList) {
+// Execute / revert), the real after() phase (situation other than "testing": RefundManager.Add of the block's refund
+// requests, RewardCalculator.CalculateReward + Add - no reward when the header has no group id -, CheckAndMove) and
+// IntermediateRoot. After every transaction a probe transaction hands the running AccountDB to probe(i, adb).
+func runBlock(w *nodeWorld, h uint64, castor, groupId []byte, txs []*types.Transaction, probe func(i int, adb *account.AccountDB)) []*types.Receipt {
 	common.SetBlockHeight(h)
-	b := &types.Block{Header: header(h), Transactions: txs}
-	_, rs, ctx := core.VerifC06ExecuteBlockCtx(w.ADB, b, "testing")
-	refunds := types.GetRefundInfo(ctx)
-	service.RefundManagerImpl.Add(refunds, w.ADB)
-	service.RefundManagerImpl.CheckAndMove(h, w.ADB)
-	return rs, refunds
+	hd := header(h)
+	hd.Castor = castor
+	hd.GroupId = groupId
+	var all []*types.Transaction
+	for i, t := range txs {
+		all = append(all, t)
+		if probe != nil {
+			all = append(all, newTx(probeType, "", strconv.Itoa(i)))
+		}
+	}
+	for _, t := range all { // the loop sorts by request id: keep the interleaved order
+		reqId++
+		t.RequestId = reqId
+	}
+	probeFn = func(tag string, adb *account.AccountDB) {
+		i, _ := strconv.Atoi(tag)
+		probe(i, adb)
+	}
+	defer func() { probeFn = nil }()
+	b := &types.Block{Header: hd, Transactions: all}
+	_, rs, _ := core.VerifC06ExecuteBlockCtx(w.ADB, b, "verif")
+	return rs
 }
